@@ -15,7 +15,7 @@ From Rigo Require Import Rlp.
 Import ListNotations.
 Local Open Scope N_scope.
 
-Ltac Zify.zify_post_hook ::= Z.div_mod_to_equations.
+#[local] Ltac Zify.zify_post_hook ::= Z.div_mod_to_equations.
 
 (* ------------------------------------------------------------------ *)
 (** * Go integer conversions *)
